@@ -237,8 +237,14 @@ func run(r *core.Run) {
 					ins = append(ins, i)
 				}
 			}
+			// quick tier: the inputs that reach the display / conversion code (decode values,
+			// binary, number); thorough: one input per value type
+			shapedIns := map[string]bool{"decode_struct": true, "decode_array": true, "decode_scalar": true, "decode_raw": true, "binary": true, "number": true}
 			var rows [][]int
 			for _, in := range ins {
+				if !thorough && !shapedIns[pool.items[in].Type] {
+					continue
+				}
 				for j := range shaped {
 					rows = append(rows, []int{in, first + j})
 				}
@@ -249,7 +255,10 @@ func run(r *core.Run) {
 				p2.items = append(p2.items, poolItem{Expr: so.expr, Type: "optpair"})
 				p2.optVals = append(p2.optVals, so.val)
 			}
-			pairIns := map[string]bool{"decode_struct": true, "decode_array": true, "decode_scalar": true, "decode_raw": true, "binary": true, "number": true}
+			pairIns := map[string]bool{"decode_struct": true, "decode_raw": true, "binary": true}
+			if thorough {
+				pairIns = shapedIns
+			}
 			for _, in := range ins {
 				if !pairIns[pool.items[in].Type] {
 					continue
